@@ -182,7 +182,7 @@ def main():
     caps = sorted({c["cap"] for c in cases})
     cpath = os.path.join(sc, "cases.ndjson")
     vlib.write_ndjson(cpath, cases)
-    frac = 0.08 if thorough else 0.25
+    frac = 0.03 if thorough else 0.25
     total = dict(cases=0, renders=0, drift=0, doc_drift_programs=0, hook_calls=0, trace_events=0, programs=0)
     kinds = {}
     traces = []
